@@ -817,6 +817,9 @@ def store_cols(it, f, names, value, node, mask=None):
     if g is not None:
         mask = g if mask is None else mk("and", mask, g)
     for n, t in zip(names, terms_):
+        if mask is not None and getattr(f, "alloc", None) in ("zeros", "ones", "empty", "full") and is_const(t) \
+                and isinstance(t.args[0], str) and n in f.cols and is_const(f.cols[n]) and not isinstance(f.cols[n].args[0], str):
+            it.record("api", "str-into-float-column", [f, K(n), value], {}, node)
         if mask is not None:
             try:
                 old = f.col(n)
